@@ -84,7 +84,46 @@ func Soup(r *rand.Rand, maxTok int) []byte {
 	n := 1 + r.Intn(maxTok)
 	var b []byte
 	for i := 0; i < n; i++ {
+		if r.Intn(40) == 0 {
+			b = append(b, AttrBlock(r)...)
+			continue
+		}
 		b = append(b, Tokens[r.Intn(len(Tokens))]...)
+	}
+	return b
+}
+
+var attrNames = []string{"class", "id", "title", "lang", "k", "data-x", "style", "onclick", "width", "Class", "cLaSs", "a.b", "a:b", "_x"}
+var attrValues = []string{"v", "a", "note", "1", "-1.5", "1e3", "true", "false", "null", "\"q\"", "\"a b\"", "'s'", "\"a\\\"b\"", "\"\"", "[1,2]", "[\"a\",b]", "{a=1}", "x<y", "&amp;", "é"}
+
+// AttrBlock returns a random attribute block such as ` {#i .c class=a .d k="v"}`: every combination and order of the
+// shorthand (.class, #id) and key=value forms (unquoted, double-quoted, single-quoted, numbers, arrays, nested).
+func AttrBlock(r *rand.Rand) []byte {
+	var b []byte
+	if r.Intn(2) == 0 {
+		b = append(b, ' ')
+	}
+	b = append(b, '{')
+	for n := r.Intn(5); n >= 0; n-- {
+		switch r.Intn(6) {
+		case 0:
+			b = append(b, "."+[]string{"c", "wide", "a-b", "x1"}[r.Intn(4)]...)
+		case 1:
+			b = append(b, "#"+[]string{"i", "main", "a-b", "x1"}[r.Intn(4)]...)
+		default:
+			b = append(b, attrNames[r.Intn(len(attrNames))]...)
+			b = append(b, '=')
+			b = append(b, attrValues[r.Intn(len(attrValues))]...)
+		}
+		if n > 0 {
+			b = append(b, []string{" ", " ", "  ", ""}[r.Intn(4)]...)
+		}
+	}
+	if r.Intn(12) != 0 {
+		b = append(b, '}')
+	}
+	if r.Intn(3) == 0 {
+		b = append(b, '\n')
 	}
 	return b
 }
